@@ -204,7 +204,11 @@ class DocstringParser(AbstractDocstringParser):
         if self.parser == Parser.numpy:
             results = [
                 ResultDocstring(
-                    type=self._griffe_annotation_to_api_type(result.annotation, griffe_docstring),
+                    type=(
+                        self._griffe_annotation_to_api_type(result.annotation, griffe_docstring)
+                        if result.annotation is not None
+                        else None
+                    ),
                     description=result.description.strip("\n"),
                     name=result.name or "",
                 )
